@@ -60,6 +60,7 @@ type desc struct {
 	Stream   bool   `json:"stream,omitempty"`
 	Preparse bool   `json:"preparse,omitempty"`
 	Reqs     []reqD `json:"reqs,omitempty"`
+	MaxBody  int    `json:"max_body,omitempty"` // Server.MaxRequestBodySize (0: 64 MiB)
 }
 
 // ---- Coq rendering -------------------------------------------------------------
@@ -433,14 +434,23 @@ func runHist(d desc) hlib.Case {
 		return n
 	}
 	reqIdx := 0
+	bodyLen := 0
 	handler := func(ctx *fasthttp.RequestCtx) {
 		mu.Lock()
 		defer mu.Unlock()
 		r := d.Reqs[reqIdx]
 		start := listDir(dir)
 		leftover = append(leftover, countLeft(start))
-		add(dispatchEv(r), coqListing(start))
+		add(dispatchEv(r, bodyLen), coqListing(start))
 		for _, op := range r.Ops {
+			if strings.HasPrefix(op, "formlimit:") {
+				// MultipartFormWithLimit(L) with L = body length - delta
+				delta, _ := strconv.Atoi(strings.TrimPrefix(op, "formlimit:"))
+				L := bodyLen - delta
+				ctx.Request.MultipartFormWithLimit(L) //nolint:errcheck
+				add("VOp (OFormLimit "+hlib.Z(int64(L))+")", coqListing(listDir(dir)))
+				continue
+			}
 			switch op {
 			case "form":
 				ctx.MultipartForm()
@@ -492,11 +502,15 @@ func runHist(d desc) hlib.Case {
 		ctx.SetBodyString("ok")
 	}
 	closedCh := make(chan []entry, 4)
+	maxBody := 64 << 20
+	if d.MaxBody > 0 {
+		maxBody = d.MaxBody
+	}
 	s := &fasthttp.Server{
 		Handler:                      handler,
 		StreamRequestBody:            d.Stream,
 		DisablePreParseMultipartForm: !d.Preparse,
-		MaxRequestBodySize:           64 << 20,
+		MaxRequestBodySize:           maxBody,
 		ConnState: func(_ net.Conn, st fasthttp.ConnState) {
 			if st == fasthttp.StateClosed {
 				closedCh <- listDir(dir)
@@ -524,8 +538,10 @@ func runHist(d desc) hlib.Case {
 	open := true
 	note := ""
 	for i, r := range d.Reqs {
-		reqIdx = i
 		body := reqBody(r, i)
+		mu.Lock()
+		reqIdx, bodyLen = i, len(body)
+		mu.Unlock()
 		var hb bytes.Buffer
 		fmt.Fprintf(&hb, "POST /r%d HTTP/1.1\r\nHost: verif\r\n", i)
 		if r.Multipart {
@@ -556,7 +572,7 @@ func runHist(d desc) hlib.Case {
 			}
 			mu.Lock()
 			leftover = append(leftover, countLeft(l))
-			add(dispatchEv(r), coqListing(l))
+			add(dispatchEv(r, len(body)), coqListing(l))
 			mu.Unlock()
 			open = false
 			break
@@ -566,7 +582,7 @@ func runHist(d desc) hlib.Case {
 			open = false
 			break
 		}
-		if r.Close {
+		if r.Close || resp.ConnectionClose() {
 			l, ok := waitClosed()
 			if !ok {
 				note = "no close after Connection: close"
@@ -618,12 +634,13 @@ type nopLogger struct{}
 
 func (nopLogger) Printf(string, ...any) {}
 
-func dispatchEv(r reqD) string {
+func dispatchEv(r reqD, bodyLen int) string {
 	var fs []string
 	for _, n := range r.Files {
 		fs = append(fs, hlib.Z(int64(n)))
 	}
-	return "VDispatch " + hlib.App("rq", hlib.Bool(r.Multipart), "true", hlib.List(fs), hlib.Bool(r.Wellformed))
+	return "VDispatch " + hlib.App("rq", hlib.Bool(r.Multipart), "true", hlib.List(fs), hlib.Bool(r.Wellformed),
+		hlib.Z(int64(bodyLen)), hlib.Z(int64(len("\r\n--"+histBoundary+"--\r\n"))))
 }
 
 func run(d desc) hlib.Case {
@@ -774,6 +791,18 @@ func corpus() []desc {
 	hist(true, false, rq([]int{12 * k}, false, false, "form"), rq([]int{9 * k}, true, false, "form"))
 	hist(true, false, rq([]int{12 * k}, true, true, "form"))
 	hist(true, false, reqD{Multipart: false, Files: []int{12 * k}, Wellformed: true, Ops: []string{"form"}}, rq([]int{9 * k}, true, false, "form"))
+	// MultipartFormWithLimit(L) on streamed bodies of length L-1 .. L+3 and far above; the file part decides whether anything spills
+	for _, fsz := range []int{8192, 8193, 20000} {
+		for _, delta := range []int{-1, 0, 1, 2, 3, 9} {
+			op := "formlimit:" + strconv.Itoa(delta)
+			hist(true, false, rq([]int{fsz}, true, false, op), rq([]int{9 * k}, true, false, "form"))
+		}
+		hist(true, false, rq([]int{100, fsz}, true, false, "formlimit:1", "form"), rq([]int{fsz}, true, true, "formlimit:3"))
+		hist(false, false, rq([]int{fsz}, true, false, "formlimit:1", "form"), rq([]int{fsz}, true, false, "formlimit:0"))
+	}
+	// MultipartForm() on a streamed body larger than Server.MaxRequestBodySize
+	c = append(c, desc{Op: "hist", Stream: true, Preparse: false, MaxBody: 10000, Reqs: []reqD{rq([]int{20000}, true, false, "form"), rq([]int{100}, true, false, "form")}})
+	c = append(c, desc{Op: "hist", Stream: true, Preparse: false, MaxBody: 10000, Reqs: []reqD{rq([]int{20000}, true, false, "formlimit:1"), rq([]int{100}, true, false, "form")}})
 	// no streaming, no pre-parse: nothing ever spills
 	hist(false, false, rq([]int{40 * k}, true, false, "form", "body"), rq([]int{9 * k}, true, false, "none"))
 	// pre-parse (both modes): only parts above 16 MiB spill; a malformed body is refused and the connection closed
@@ -874,6 +903,9 @@ func gen(r *rand.Rand, i int) desc {
 		ops := []string{"form", "form", "none", "setbody", "setbodystring", "appendbody", "resetbody", "setbodyraw", "setbodystream", "removefiles", "userremove"}
 		if !d.Stream {
 			ops = append(ops, "body")
+		}
+		for _, dl := range []int{-2, 0, 1, 2, 3, 7} {
+			ops = append(ops, "formlimit:"+strconv.Itoa(dl))
 		}
 		nreq := 1 + r.Intn(4)
 		for j := 0; j < nreq; j++ {
